@@ -24,7 +24,7 @@ RULE = (
     "arrays from the real init_fn compared with the reference selection semantics, untouched rows compared with the tables; for single "
     "calls also set vs data_set vs trainable 2-step simulations and write_trainables; state = canonical (trainable keys, index groups)"
 )
-REQUIRED_COVER = ["data_set_through_original_view", "set_between_simulation_and_write_trainables", "init_val:zero", "init_val:float", "init_val:list", "unequal_groups_last_comp_outside", "unequal_groups_last_comp_inside", "nan_rows_skipped", "edge_key_through_type_view",
+REQUIRED_COVER = ["param_state_object_reused", "data_set_through_original_view", "set_between_simulation_and_write_trainables", "init_val:zero", "init_val:float", "init_val:list", "unequal_groups_last_comp_outside", "unequal_groups_last_comp_inside", "nan_rows_skipped", "edge_key_through_type_view",
                   "edge_select", "shared_over_group", "state_key", "overlapping_trainables", "set_eq_data_set_eq_trainable",
                   "write_trainables", "initial_value_is_group_mean"]
 ASSUMPTIONS = [
@@ -352,7 +352,23 @@ def run_history(modname, hist, simulate=False):
                     m_set.select(**sel).set(key, float(pv[g]))
                     ps = m_ds.select(**sel).data_set(key, float(pv[g]), ps)
             r_set = np.asarray(jx.integrate(m_set, delta_t=DT))
+            ps_before = copy.deepcopy(ps)
             r_ds = np.asarray(jx.integrate(m_ds, param_state=ps, delta_t=DT))
+            # the caller's param_state is an input: integrate must not rewrite it, and passing the same object again (and the same
+            # params again) must give the same result
+            r_ds2 = np.asarray(jx.integrate(m_ds, param_state=ps, delta_t=DT))
+            r_train2 = np.asarray(jx.integrate(m, params=new_params_used, delta_t=DT))
+            out["cover"].append("param_state_object_reused")
+            same_ps = len(ps) == len(ps_before) and all(
+                a["key"] == b["key"] and np.array_equal(np.asarray(a["val"]), np.asarray(b["val"])) and np.array_equal(np.asarray(a["indices"]), np.asarray(b["indices"]))
+                for a, b in zip(ps, ps_before))
+            if not same_ps:
+                viol("integrate_rewrites_callers_param_state", f"param_state after integrate: {[(d['key'], np.asarray(d['indices']).tolist()) for d in ps]} "
+                     f"before: {[(d['key'], np.asarray(d['indices']).tolist()) for d in ps_before]}")
+            elif not np.array_equal(r_ds2, r_ds, equal_nan=True):
+                viol("same_param_state_twice_differs", f"max diff {float(np.max(np.abs(r_ds2 - r_ds)))}")
+            if not np.array_equal(r_train2, r_train, equal_nan=True):
+                viol("same_params_twice_differs", f"max diff {float(np.max(np.abs(r_train2 - r_train)))}")
             e1 = float(np.max(np.abs(r_train - r_set) / (1 + np.abs(r_set))))
             e2 = float(np.max(np.abs(r_ds - r_set) / (1 + np.abs(r_set))))
             out["cover"].append("set_eq_data_set_eq_trainable")
